@@ -461,18 +461,43 @@ func (d *Driver) Judge(H []*host.Host, members map[string]*host.Host, R []*host.
 				wrongTier = append(wrongTier, h)
 			}
 		}
+		has := func(tags []string, t string) bool {
+			for _, x := range tags {
+				if x == t {
+					return true
+				}
+			}
+			return false
+		}
+		var droppedByStaleMark []*host.Host
+		for _, u := range bestMissing {
+			if d.unmarkWhy[u.Addr] != nil {
+				droppedByStaleMark = append(droppedByStaleMark, u)
+			}
+		}
+		var readded []*host.Host
+		for _, h := range unhealthy {
+			if has(d.entryWhy[h], "add-unhealthy-object") {
+				readded = append(readded, h)
+			}
+		}
+		const droppedMsg = " is a member flagged healthy in the preferred tier and not reported"
 		switch {
-		case len(unhealthy) > 0:
-			for _, h := range unhealthy {
+		case len(droppedByStaleMark) > 0:
+			for _, u := range droppedByStaleMark {
+				add("healthy-member-dropped", u.String()+droppedMsg, d.unmarkWhy[u.Addr])
+			}
+		case len(readded) > 0:
+			for _, h := range readded {
 				add("unhealthy-reported", h.String()+" is flagged unhealthy and reported as usable", d.entryWhy[h])
 			}
 		case len(bestMissing) > 0:
 			for _, u := range bestMissing {
-				c := d.unmarkWhy[u.Addr]
-				if c == nil {
-					c = curWin
-				}
-				add("healthy-member-dropped", u.String()+" is a member flagged healthy in the preferred tier and not reported", c)
+				add("healthy-member-dropped", u.String()+droppedMsg, curWin)
+			}
+		case len(unhealthy) > 0:
+			for _, h := range unhealthy {
+				add("unhealthy-reported", h.String()+" is flagged unhealthy and reported as usable", d.entryWhy[h])
 			}
 		default:
 			for _, h := range wrongTier {
